@@ -37,6 +37,7 @@
 #else
 
 #include "threadsafe_queue.h"
+#include <atomic>
 #include <vector>
 #include <thread>
 
@@ -114,7 +115,7 @@ namespace XKoJen
         threadsafe_queue<T> m_queue;
         std::vector<std::thread> m_threads;
         std::string m_name;
-        bool m_shutting_down = false;
+        std::atomic<bool> m_shutting_down{ false }; // written by the destructor while the workers read it
     };
 }
 #endif // __arm__
